@@ -453,8 +453,38 @@ class Prover:
                 continue
             if self.refute(a):
                 continue
+            if self.case_split(a):
+                continue
             return False
         return True
+
+    def case_split(self, a) -> bool:
+        """Two-valued case analysis on one boolean flag that guards implications among the facts: the goal holds if it
+        holds (or the facts become inconsistent) both when the flag is true and when it is false."""
+        if getattr(self, "_splitting", False):
+            return False
+        memo = self.__dict__.setdefault("_split_memo", {})
+        if a in memo:
+            return memo[a]
+        memo[a] = False
+        flags = []
+        for f in self.facts:
+            if f[0] == "imp" and f[1][0] in ("truthy", "falsy") and is_term(f[1][1]):
+                t = self.canon(f[1][1])
+                if t not in flags and self._is_boolish(t):
+                    flags.append(t)
+        for t in sorted(flags, key=repr)[:6]:
+            ok = True
+            for pol in ("truthy", "falsy"):
+                hyp = Prover.of(frozenset(self.facts | {(pol, t)}))
+                hyp._splitting = True
+                if not (hyp.inconsistent() or hyp._holds(a)):
+                    ok = False
+                    break
+            if ok:
+                memo[a] = True
+                break
+        return memo[a]
 
     def refute(self, a) -> bool:
         """Proof by contradiction for the truth of a *boolean* term: if assuming the opposite is inconsistent, a holds
